@@ -415,7 +415,7 @@ func finish(c *Check, tier string, parts []*Partial, wall time.Duration) int {
 	if m.States == 0 {
 		m.States = m.Distinct
 	}
-	if m.Transitions == 0 {
+	if m.Transitions < m.Evaluations {
 		m.Transitions = m.Evaluations
 	}
 	if len(m.Samples) == 0 {
